@@ -67,11 +67,18 @@ def gen_axis(rng, n, res):
         b = a + rng.choice([1e-3, 0.5, 1.0, 1.0, 2.0, 10.0, 1e4])
         t_lo, t_hi = a, b
     bw = (t_hi - t_lo) / res
-    kind = rng.choice(["onebin", "fewbins", "uniform", "uniform", "edges", "mixed"])
+    kind = rng.choice(["onebin", "fewbins", "uniform", "uniform", "edges", "mixed", "ulps"])
     pts = []
     for _ in range(n):
         k = kind if kind != "mixed" else rng.choice(["onebin", "fewbins", "uniform", "edges"])
-        if k == "onebin":
+        if k == "ulps" and abs(t_hi) < 1e-6:
+            k = "onebin"  # a range of a few *denormal* ulps around zero underflows in any arithmetic: not generated
+        if k == "ulps":
+            # values that differ only in their last bits (a range a few ulps wide, but not degenerate)
+            t = float(np.nextafter(t_hi, np.inf if rng.random() < 0.5 else -np.inf)) if rng.random() < 0.5 else t_hi
+            for _ in range(rng.randrange(0, 4)):
+                t = float(np.nextafter(t, np.inf))
+        elif k == "onebin":
             t = t_lo + (int(res * 0.6) + 0.3 + 0.4 * rng.random()) * bw if res > 1 else t_lo + (0.3 + 0.4 * rng.random()) * bw
         elif k == "fewbins":
             t = t_lo + (rng.randrange(min(res, 3)) + 0.1 + 0.8 * rng.random()) * bw
@@ -116,6 +123,12 @@ def generate(rng, tier):
             "unit": rng.choice(["", "g", "cm/s", "K"]),
             "vector": rng.random() < 0.1,
         })
+    # several layers may show the very same Array object with different operations (image + contours of one quantity)
+    for k in range(1, len(layers)):
+        if rng.random() < 0.3:
+            src = rng.randrange(k)
+            if not layers[src].get("vector"):
+                layers[k] = dict(layers[k], values=list(layers[src]["values"]), unit=layers[src]["unit"], vector=False, same_as=src)
     case = {
         "n": n, "res": res, "x": ax, "y": ay, "layers": layers,
         "call_op": rng.choice([None, "sum", "mean"]),
@@ -148,12 +161,16 @@ def call_frontend(case, sim_factory):
     x = osyris.Array(values=np.array(case["x"]["pts"], dtype=float), unit=case["xunit"], name="xq")
     y = osyris.Array(values=np.array(case["y"]["pts"], dtype=float), unit="", name="yq")
     layers = []
+    datas = []
     for i, l in enumerate(case["layers"]):
         v = np.array(l["values"], dtype=float)
-        if l.get("vector"):
+        if l.get("same_as") is not None and l["same_as"] < len(datas):
+            data = datas[l["same_as"]]  # the same object
+        elif l.get("vector"):
             data = osyris.Vector(x=v, y=np.zeros_like(v), unit=l["unit"], name=f"lay{i}")
         else:
             data = osyris.Array(values=v, unit=l["unit"], name=f"lay{i}")
+        datas.append(data)
         # bare Arrays are accepted as layers; Vectors only inside a Layer
         layers.append(osyris.core.Layer(data, operation=l["op"]) if (l["op"] is not None or i % 2 or l.get("vector")) else data)
     kw = {"resolution": case["res"], "plot": False}
@@ -598,10 +615,22 @@ def reductions(case, viol):
                     c = _drop_point(c, i)
                 if c["n"] >= 1:
                     yield from _resched(c)
-    # 2. fewer layers
+    # 2. fewer layers (references to a dropped or shifted layer are resolved: the values are literal anyway)
     for k in range(len(case["layers"])):
         c = dict(case)
-        c["layers"] = case["layers"][:k] + case["layers"][k + 1:]
+        kept = []
+        for j, l in enumerate(case["layers"]):
+            if j == k:
+                continue
+            l2 = dict(l)
+            sa = l2.get("same_as")
+            if sa is not None:
+                if sa == k:
+                    l2.pop("same_as")
+                elif sa > k:
+                    l2["same_as"] = sa - 1
+            kept.append(l2)
+        c["layers"] = kept
         yield c
     # 3. fewer workers / simpler partition / smaller resolution
     s = case["sched"]
